@@ -245,6 +245,19 @@ CHECKS = {
         assumptions=["Keccak-256 is collision-free"],
         trusted_base=["hand model Model/Certificate.lean", "Lean Keccak-256 (driver only)", "recording signer in the harness"],
     ),
+    "C12": dict(
+        modules=["AggkitModel.Properties.C12"],
+        scenarios=[dict(name="bridgeapi")],
+        generated=[],
+        leanchecker=True,
+        level_text="Proved in Lean 4 for EVERY content of the L1 info tree, the verified-batches table and the bridge stores and every deposit count: C12_index_covers_l1 / C12_index_covers_l2 — whenever the L1-info-index lookup (both binary searches, modelled loop for loop over the queries they issue: first/last/first-after-block info, first/last/first-after-block verified batches, first info with a rollup exit root, root by exit root) answers with an index, "
+                   "that index is a recorded leaf whose mainnet exit root (rollup exit root) commits to more than the asked deposit count; in every other case it returns an error. C12_claim_proof — after any history of an exit tree store the proof served for (deposit, exit root of any recorded version covering it) hashes the deposit's leaf to exactly that root (C08's store theorem; the rollup exit tree half is C08_updatable_step). "
+                   "Tie: bridgeapi scenario — the service's own HTTP router and handlers (/l1-info-tree-index, /claim-proof) over the real L1 and L2 bridge processors and the real L1 info tree processor (incl. the rollup exit tree) in a joint L1/L2 world; every lookup answer is compared with the model and checked by a monitor against the generated world; every returned claim proof is verified (leaf -> local/mainnet exit root -> rollup exit root, returned L1 info leaf) with an independent verifier against independently computed trees.",
+        level_note="Trusted: Lean kernel; model/code correspondence (generator-bounded); the lookup is safe, not live: it returns an error although a covering leaf exists when the search meets an info leaf whose mainnet exit root is the empty tree's (observed in worlds whose first info leaves predate any mainnet deposit; allowed by the property, noted in DESIGN); block numbers >= 1; /injected-l1-info-leaf is not exercised.",
+        rule="seeded worlds (12 quick / 80 thorough) of 16/30 steps: L1 blocks with 1-4 events in arbitrary order (mainnet deposits, info updates naming any not-yet-named prefix of the deposits — several per block —, verified batches of this network with any not-yet-verified prefix of the L2 deposits, verified batches of other rollups), L2 blocks with 1-3 deposits; 30% of the worlds start with info leaves before any deposit; after every third step: the lookup for every deposit and one beyond on both networks, and the claim proof for random covered (leaf, deposit) pairs; distinct non-trivial = distinct (network, answered index) and (network, deposit, leaf) classes",
+        assumptions=["the GER contract records an info leaf only when the global exit root changed", "both bridge syncers have processed the blocks the info leaves refer to"],
+        trusted_base=["hand model Model/BridgeAPI.lean", "reference Merkle trees in the harness"],
+    ),
     "C13": dict(
         modules=["AggkitModel.Properties.C13"],
         scenarios=[dict(name="aggsender"), dict(name="certcodec")],
